@@ -75,12 +75,42 @@ PROPS = {
                        "selected positions, or the block is skipped exactly when it holds none. The reversed-slice recasting, keys that mix "
                        "integers / lists / reversed slices on n-d arrays and multi-chunk dask values are bounded",
     },
+    "C05": {
+        "level": "exploration",
+        "explanation": "bounded contract on the real collection protocol: for catalogue and rewrite-target programs, x.compute(), "
+                       "dask.compute with other collections, x.persist(), dask.persist, dask.optimize, x.optimize() and x.to_delayed() "
+                       "yield the same values, the persisted / dask-optimised collections keep name, chunks and dtype, and five follow-on "
+                       "operations on each returned collection compute what they compute on x. Nothing is proved: the entry points go "
+                       "through dask's generic optimiser and scheduler, outside any contract on dask-array code",
+    },
+    "C06": {
+        "level": "exploration",
+        "explanation": "bounded contract on the real naming code: every node of every catalogue / rewrite-target program in its raw, "
+                       "simplified, lowered and fused form is registered by name in one process; two nodes with one name must have the same "
+                       "shape, chunks and dtype and, where their operands differ structurally, the same values. Nothing is proved: global "
+                       "injectivity of tokenize-derived names over all program pairs is not a per-function postcondition",
+    },
+    "C07": {
+        "level": "exploration",
+        "explanation": "bounded contract on the real naming / pickling code: every catalogue and rewrite-target program, built again in "
+                       "the same process and in a fresh interpreter, has the same collection name, chunks, dtype, output keys and optimised "
+                       "graph keys, and its cloudpickle round trip keeps all of those and computes the same values. Nothing is proved: the "
+                       "names come from dask.tokenize and cloudpickle, outside any contract on dask-array code",
+    },
     "C08": {
         "level": "exploration",
         "explanation": "bounded contract on the real optimiser over the catalogue: simplify / lower / fuse terminate without error, a second "
                        "application of simplify, of lower_completely and of optimize returns an expression of the same name, and the optimised "
                        "form of a program that computes un-optimised still computes (to the same value). Termination and idempotence for ALL "
                        "expression trees are whole-system fixpoint properties on which function contracts are silent: nothing is proved",
+    },
+    "C09": {
+        "level": "exploration",
+        "explanation": "bounded contracts on the real materializer: every catalogue / rewrite-target program computes the same values "
+                       "(NumPy's) under 16 settings of the optimiser and planner options in effect at construction, at graph-build time or "
+                       "both, and in groups sharing subtrees, singleton nodes and the name-keyed lowering cache, whatever the compute order "
+                       "and whatever setting the cache entries were made under. Nothing is proved: the property quantifies over histories "
+                       "of whole programs and over configurations of whole runs, on which function contracts are silent",
     },
     "C23": {
         "level": "exploration",
